@@ -17,7 +17,11 @@ def main():
             for l in r.get("lines", []):
                 if l.strip().startswith("what:"):
                     keys.append(l.strip()[5:].strip().split(":")[0])
-        rows.append((d["id"], d["property"], ", ".join(d.get("caught_by", [])) or "MISSED",
+        caught = ", ".join(d.get("caught_by", []))
+        rc = d.get("recheck_after_strengthening") or {}
+        if not caught and rc.get("caught_by_scenarios"):
+            caught = d["property"] + " (scenario library, see meta.json)"
+        rows.append((d["id"], d["property"], caught or "MISSED",
                      "; ".join(sorted(set(keys)))[:120], first[:140]))
     out = ["# Seeded changes", "",
            "Each directory holds `patch.diff` (the change), `demo.py` (fails with the change, passes without),",
